@@ -7,7 +7,7 @@ VARIABLE cs
 Rings == LET RECURSIVE Cat(_)
              Cat(i) == IF i > Len(cs.poly.polys) THEN <<>> ELSE cs.poly.polys[i] \o Cat(i + 1)
          IN Cat(1)
-Ok(e) == /\ e.ev = "clip" /\ e.out = "ok" /\ e.dense /\ e.again      \* dense: the same line with every segment cut into 257 pieces is clipped to the same total length;      \* again: clipping the same line by the same polygon value once more gives the same pieces
+Ok(e) == /\ e.ev = "clip" /\ e.out = "ok" /\ e.dense /\ e.moved /\ e.again      \* dense: the same line with every segment cut into 257 pieces is clipped to the same total length;      \* again: clipping the same line by the same polygon value once more gives the same pieces
          /\ \A m \in 1..Len(cs.lines) : Simple(cs.lines[m])
          /\ GeneralPosition(cs.lines, Rings)                 \* the case is inside the property's quantifier domain
          /\ ClipOK(e.pieces, cs.lines, Rings)
